@@ -90,7 +90,7 @@ def gen_seq(rng, setlike, small=False, bigmult=False):
         l = [rng.randrange(3)] * rng.choice([254, 255, 256, 257, 300]) + [rng.randrange(6) for _ in range(rng.randint(0, 3))]
         rng.shuffle(l); return ('q', l)
     if not small and rng.random() < 0.025:      # a LONG collection: more than 255 distinct elements / script entries / change-list entries
-        n = rng.choice([60, 130, 260, 300, 600]) if (setlike or bigmult) else rng.choice([60, 130, 260, 280])      # ordered lists: the Peano-nat model is O(n*m)
+        n = rng.choice([60, 130, 260, 300, 600]) if (setlike or bigmult) else rng.choice([60, 100, 130, 200])      # ordered lists: the Peano-nat model is O(n*m)
         if setlike: return ('q', sorted(rng.sample(range(5000), n)))
         return ('q', [rng.randrange(3000) for _ in range(n)] if rng.random() < 0.7 else [rng.randrange(6) for _ in range(n)])
     n = rng.choice([0, 1, 2, 3, 5] if small else [0, 0, 1, 2, 3, 5, 9, 14, 20])
